@@ -156,9 +156,11 @@ class Extractor:
             if dm is None:
                 dm = re.search(r'#\[derive\(([^)]*)\)\]\s*$', src[max(0, s - 200):s])
             names = [x.strip() for x in (dm.group(1).split(',') if dm else [])]
-            keep = [x for x in names if x in ('Clone', 'Copy')]
+            keep = [x for x in names if x in ('Clone', 'Copy', 'PartialEq', 'Eq')]
             if not keep:
                 raise LostAnchor('item %s: keep-derive asked but no Clone/Copy derive found' % name)
+            if 'PartialEq' in keep:
+                keep = ['Structural'] + keep   # Verus: makes the derived == usable in exec code (structural equality)
             kept = '#[derive(%s)]\n' % ', '.join(keep)
         text, n4 = strip_attrs_and_docs(text)
         self._count('R4', n4)
